@@ -124,7 +124,9 @@ func checkLiteral(c *core.Ctx, f univ.Flavor, k kind, lit string, quoted bool) {
 	}
 	accepted := err == nil
 	fd := m.Descriptor().Fields().ByNumber(k.num)
-	sig := func(cl string) string { return fmt.Sprintf("%s field=%s quoted=%v literal=%s", cl, k.json, quoted, lit) }
+	sig := func(cl string) string {
+		return fmt.Sprintf("%s field=%s quoted=%v literal=%s", cl, k.json, quoted, lit)
+	}
 	if !ok {
 		// not an RFC number: must be rejected, except the quoted float specials
 		if quoted && k.float && (lit == "NaN" || lit == "Infinity" || lit == "-Infinity") {
